@@ -420,11 +420,11 @@ def statement(st):
 # --------------------------------------------------------------------------- functions
 class Func:
     __slots__ = ('name', 'kind', 'args', 'ret', 'locals', 'blocks', 'raw_header', 'crate', 'const_value', 'nlines',
-                 'argtypes', 'entry')
+                 'argtypes', 'entry', 'order')
     def __init__(self, name, kind):
         self.name = name; self.kind = kind; self.args = []; self.ret = None; self.locals = {}
         self.blocks = {}; self.raw_header = ''; self.crate = None; self.const_value = None; self.nlines = 0
-        self.argtypes = []
+        self.argtypes = []; self.order = 0
     def __repr__(self):
         return '<Func %s>' % self.name
 
@@ -490,8 +490,12 @@ def parse_mir(path, crate=None):
                     continue
                 f.crate = crate
                 f.raw_header = line
+                f.order = i
                 if f.const_value is not None:
-                    funcs.setdefault(f.name, f)
+                    if f.name in funcs:
+                        dups.setdefault(f.name, [funcs[f.name]]).append(f)       # macro-generated items share a name
+                    else:
+                        funcs[f.name] = f
                     continue
                 cur = f
                 bb = None
